@@ -656,8 +656,9 @@ func (d *driver) forgeFullEdgeTile(n int) {
 
 func (d *driver) submitMany(li *logInst, n int) {
 	for i := 0; i < n; i++ {
-		d.submit(li, d.newEntry(), false)
+		d.submitOpt(li, d.newEntry(), false, false)
 	}
+	d.sync()
 }
 
 func (d *driver) newInstanceLike(prev *logInst) *logInst {
